@@ -350,9 +350,10 @@ def liftErr (nr : Nat) {α : Type} (r : Except ErrKind α) : Except EngErr α :=
 def selectExcept (src : Row) (cols : List Nat) : Row :=
   (src.zipIdx.filter (fun p => !cols.contains p.2)).map (·.1)
 
-/-- evaluate the select list on one (joined) record: the output fields (with a placeholder at the
-UNNEST position) and, if there is an UNNEST item, its position and list -/
-def evalItems : List SItem → Env → Except ErrKind (Row × Option (Nat × List Atom))
+/-- evaluate the select list on one (joined) record, left to right: the output fields (with a placeholder at
+the UNNEST position) and, if there is an UNNEST item, its position and list.  `seen` = an UNNEST item has already
+been evaluated: the second `UNNEST(...)` call raises as soon as it is reached (after its argument was evaluated) -/
+def evalItemsFrom (seen : Bool) : List SItem → Env → Except ErrKind (Row × Option (Nat × List Atom))
   | [], _ => .ok ([], none)
   | it :: rest, e => do
     let (hd, un) ← (match it with
@@ -360,14 +361,18 @@ def evalItems : List SItem → Env → Except ErrKind (Row × Option (Nat × Lis
       | .star => pure (e.a ++ e.b.getD [], none)
       | .starA => pure (e.a, none)
       | .starB => pure (e.b.getD [], none)
-      | .unnest f => do let l ← f e; pure ([Val.none], some l)
+      | .unnest f => do
+        let l ← f e
+        if seen then .error .unnestTwice else pure ([Val.none], some l)
       | .agg _ f => do let v ← f e; pure ([v], none) : Except ErrKind (Row × Option (List Atom)))
-    let (tl, un2) ← evalItems rest e
+    let (tl, un2) ← evalItemsFrom (seen || un.isSome) rest e
     match un, un2 with
-    | some _, some _ => .error .unnestTwice
-    | some l, none => .ok (hd ++ tl, some (0, l))
+    | some l, _ => .ok (hd ++ tl, some (0, l))
     | none, some (p, l) => .ok (hd ++ tl, some (hd.length + p, l))
     | none, none => .ok (hd ++ tl, none)
+
+def evalItems (items : List SItem) (e : Env) : Except ErrKind (Row × Option (Nat × List Atom)) :=
+  evalItemsFrom false items e
 
 /-- kinds of the output columns of an aggregate query, in output order (needs the record for stars) -/
 def aggColKinds : List SItem → Env → List (Option AggKind)
